@@ -33,7 +33,7 @@ type c14Case struct {
 
 func genC14(t *rapid.T) c14Case {
 	var c c14Case
-	c.Family = rapid.SampledFrom([]string{"value", "value", "throw", "syntax", "loop", "loop", "slow", "recursion", "cyclic"}).Draw(t, "family")
+	c.Family = rapid.SampledFrom([]string{"value", "value", "throw", "syntax", "loop", "loop", "slow", "recursion", "cyclic", "chain"}).Draw(t, "family")
 	c.Variant = rapid.IntRange(0, 5).Draw(t, "variant")
 	c.Placement = rapid.SampledFrom([]string{"run", "action", "condition", "condition-not"}).Draw(t, "placement")
 	c.Source = rapid.SampledFrom([]string{"control", "control", "default", "off", "locoff"}).Draw(t, "source")
@@ -115,11 +115,28 @@ func (c c14Case) script() (code string, want interface{}) {
 		default:
 			return "var n = 0; while (n >= 0) { n = (n + 1) % 1000; }", nil
 		}
+	case "chain":
+		// rule chaining: the script's value is what processing another
+		// event returned (a Go value with back-pointers in it when that
+		// event found a rule)
+		switch c.Variant % 3 {
+		case 0:
+			return "Env.ProcessEvent({chain: 'v'})", nil
+		case 1:
+			return "Env.ProcessEvent({nobodyListens: 'v'})", nil
+		default:
+			return "var w = Env.ProcessEvent({chain: 'v'}); ({inner: w, n: 1})", nil
+		}
 	case "cyclic":
 		// a value (or an argument of a location function) that refers
 		// to itself: it has no JSON form, so it cannot be a result; what
 		// matters is that the attempt ends (as an error, most likely)
-		switch c.Variant % 4 {
+		switch c.Variant % 6 {
+		case 4:
+			// a cycle that the script's own JSON would not notice
+			return "var o = {}; o.self = o; o.toJSON = function() { return 1; }; o", nil
+		case 5:
+			return "JSON = {stringify: function() { return '1'; }}; var o = {}; o.self = o; o", nil
 		case 0:
 			return "var o = {}; o.self = o; o", nil
 		case 1:
@@ -202,6 +219,13 @@ func runC14(c c14Case) *vlib.Outcome {
 	if err != nil {
 		o.Fail("OPEN", "%v", err)
 		return o
+	}
+	if c.Family == "chain" {
+		if _, err := loc.AddRule(newCtx(), "chained", core.Map(mkRule(M{"chain": "?c"}, "chained ran"))); err != nil {
+			o.Fail("OPEN", "%v", err)
+			return o
+		}
+		o.NonTrivial = true
 	}
 
 	type result struct {
@@ -307,6 +331,15 @@ func runC14(c c14Case) *vlib.Outcome {
 		if elapsed > limit+time.Second {
 			o.Label("slow-stop>1s")
 		}
+	case "chain":
+		// the script finishes well within its limit: it succeeds
+		if res.err != nil || !res.complete {
+			o.Fail("GOOD_SCRIPT_FAILED", "%s: a script whose value is the result of Env.ProcessEvent failed: %v (after %v)", desc, res.err, elapsed)
+		}
+		if strings.HasPrefix(c.Placement, "condition") && c.Placement == "condition" && !res.ranAfter {
+			o.Fail("CONDITION_VALUE", "%s: the condition's value is an object (truthy) but the action did not run", desc)
+		}
+		o.Label("chained-event")
 	case "cyclic":
 		// Nothing to compare: the call came back (the hard bound above)
 		// and the process is still there.  A cyclic value reported as a
